@@ -3,7 +3,7 @@ import Rivaas.Spec.OpenAPI
 /-
 Driver for C07. Case line:
 
-  <id> <30|31> <strict> <nenv> ENV* <nops> OP*  =>  OFF ON <metaValid> <refsResolve> <stable>
+  <id> <30|31> <strict> <nenv> ENV* <nops> OP*  =>  OFF ON <metaValid> <refsResolve> <stable> <validatorAgrees>
 
   ENV := <tid> S <name> <pkgPath> <n> FIELD*  |  <tid> A TY
   FIELD := F <name> <exported> <json> <validate> <query> <path> <header> <cookie> TY | E <tid>
@@ -17,7 +17,10 @@ Driver for C07. Case line:
 OFF is `API.Generate` with validation off, ON with `WithValidation(true)`. `metaValid` is the verdict of
 the jsonschema library on OFF's document against the repository's embedded meta-schema (the validator
 is a parameter of the model), `refsResolve` the harness' own JSON-pointer resolution of every `$ref`
-in the raw JSON, `stable` byte equality of repeated generations.
+in the raw JSON, `stable` byte equality of repeated generations, `validatorAgrees` whether the
+repository's own `validate.Validator` gives the same verdicts as the jsonschema library on the
+document and on a damaged variant of it (part of MI: the validator the model takes as a parameter is
+the one the code is wired to).
 
 The produced JSON is read *strictly* into `Doc Schema`: a member the grammar does not know makes the
 case `unparsed` (MI=0), so nothing in the document is ignored silently.
@@ -334,11 +337,27 @@ def pOff : M Res := do
 
 /-! ## comparing documents -/
 
+def showSc : Sc → String
+  | .str v => "\"" ++ String.ofList v ++ "\""
+  | .num v => String.ofList v
+  | .bool b => toString b
+  | .strs vs => "[" ++ ",".intercalate (vs.map String.ofList) ++ "]"
+
+def showAttrs (a : Attrs) : String := "{" ++ ",".intercalate (a.map fun kv => String.ofList kv.1 ++ ":" ++ showSc kv.2) ++ "}"
+
+/-- field names are non-empty (hypothesis `EnvNamed` of the theorems; a fact about reflect) -/
+def envNamedB (env : Env) : Bool :=
+  env.all fun e => match e.2 with
+    | .struct _ _ fs => fs.all fun f => match f with
+      | .field m _ => !m.name.isEmpty
+      | .embed _ => true
+    | .alias _ => true
+
 mutual
   partial def diffSchema (path : String) : Schema → Schema → Option String
     | .ref a, .ref b => if a = b then none else some s!"{path}: $ref {String.ofList a} vs {String.ofList b}"
     | .node h1 i1 p1 a1, .node h2 i2 p2 a2 =>
-      if h1 ≠ h2 then some s!"{path}: members {repr h1} vs {repr h2}"
+      if h1 ≠ h2 then some s!"{path}: members {showAttrs h1} vs {showAttrs h2}"
       else (diffO (path ++ "/items") i1 i2).orElse fun _ =>
         (diffP (path ++ "/properties") p1 p2).orElse fun _ => diffO (path ++ "/additionalProperties") a1 a2
     | .ref _, .node .. => some s!"{path}: $ref vs node"
@@ -411,14 +430,15 @@ def step (line : String) : String :=
     | .error why => s!"{id} bad-case input: {clean why}"
     | .ok (x, restIn) =>
       if !restIn.isEmpty then s!"{id} bad-case trailing-input" else
+      if !envNamedB x.env then s!"{id} bad-case a struct field without a name" else
       match pOff.run obs with
       | .error why => s!"{id} bad-case observation: {clean why}"
       | .ok (off, _) =>
         -- ON and the three flags are the last tokens of the line
         let rev := obs.reverse
-        let flags := (rev.take 3).reverse
-        let t4 := (rev.drop 3).head?.getD ""
-        let t5 := (rev.drop 4).head?.getD ""
+        let flags := (rev.take 4).reverse
+        let t4 := (rev.drop 4).head?.getD ""
+        let t5 := (rev.drop 5).head?.getD ""
         let on : Res :=
           if t5 == "E" then .err t4
           else match t4 with
@@ -428,7 +448,8 @@ def step (line : String) : String :=
             | "X" => .other
             | _ => .unparsed "on"
         match flags with
-        | [mv, rr, stb] =>
+        | [mv, rr, stb, vag] =>
+          let validatorAgrees := vag == "1"
           let metaValid := mv == "1"
           let refsResolve := rr == "1"
           let stable := stb == "1"
@@ -462,8 +483,8 @@ def step (line : String) : String :=
               (match on with | .same => true | _ => false)   -- validation must not reject (or change) a valid document
             | .unparsed _ => true                   -- correspondence broken, not (yet) a property violation
             | _ => false
-          let detail := if miOff then (if miOn then "ok" else "on-mismatch") else why
-          verdict id (miOff && miOn) sOK "-" detail
+          let detail := if miOff then (if miOn then (if validatorAgrees then "ok" else "validator-disagrees") else "on-mismatch") else why
+          verdict id (miOff && miOn && validatorAgrees) sOK "-" detail
         | _ => s!"{id} bad-case flags"
 
 end Rivaas.DriverC07
